@@ -1,0 +1,40 @@
+//! Verification hooks (only compiled with `--cfg rosu_pp_verif`).
+
+use crate::{model::beatmap::Beatmap, Difficulty};
+
+use super::{
+    convert::convert_objects,
+    difficulty::OsuDifficultySetup,
+    object::OsuObjectKind,
+};
+
+/// Per converted osu! object: `(kind, nested objects, large ticks)` where
+/// `kind` is `0` for circles, `1` for sliders and `2` for spinners.
+///
+/// `map` must already be an osu! map.
+pub fn object_summary(difficulty: &Difficulty, map: &Beatmap) -> Vec<(u8, u32, u32)> {
+    let (scaling_factor, time_preempt, mut attrs) =
+        OsuDifficultySetup::new(difficulty, map).verif_parts();
+
+    let objects = convert_objects(
+        map,
+        &scaling_factor,
+        difficulty.get_mods().reflection(),
+        time_preempt,
+        map.hit_objects.len(),
+        &mut attrs,
+    );
+
+    objects
+        .iter()
+        .map(|h| match h.kind {
+            OsuObjectKind::Circle => (0, 0, 0),
+            OsuObjectKind::Slider(ref slider) => (
+                1,
+                slider.nested_objects.len() as u32,
+                slider.large_tick_count() as u32,
+            ),
+            OsuObjectKind::Spinner(_) => (2, 0, 0),
+        })
+        .collect()
+}
